@@ -386,6 +386,47 @@ def check_alg_list(ctx, fi, d, what, term, key, default, table, ah_test, site):
               key=('B2', what, key, 'alg-list'), site=site, detail={'found': tq.text(loaded, 200)})
 
 
+def auth_level(ctx, rule='B2'):
+    """AuthConfiguration: the PSK and the key texts are the configured values encoded - nothing converted, defaulted or padded on the way
+    (a `str()` around the value turns a blank `psk:` into the secret b'None') - loaded by the class of their field, else None; the
+    identity is the typed `id` value.  Shared with C02 (what the AUTH verification compares against is what was configured)."""
+    lauth = ctx.func(CLS + '._load_auth_conf')
+    ps_ = lauth.call_params()
+    ctx.require(len(ps_) >= 1, 'anchor vanished: _load_auth_conf(conf_dict)')
+    LA = ctx.sval(lauth)
+    d_auth = ('param', ps_[0])
+    calls = LA.calls_to(callee='namedtuple.AuthConfiguration')
+    ctx.floor('B2 AuthConfiguration(...) construction', len(calls), 1)
+    for c in calls:
+        kw = c.args
+        site = ctx.site(lauth, c.node)
+
+        def optional(field, key, wrapper):
+            e = kw.get(field, NONE)
+            present = LA.mk_cmp('in', const(key), d_auth)
+            a, b = tq.restrict(e, lambda t: True if strip_ids(t) == strip_ids(present) else None), \
+                tq.restrict(e, lambda t: False if strip_ids(t) == strip_ids(present) else None)
+            ok = a != b and b == NONE and tuple(k for k, _ in conf_reads(a, d_auth)) == (key,)
+            if ok:
+                names = callee_names(a)
+                ok = 'encode' in names and (wrapper is None or wrapper in names)
+                # ... and nothing else is applied to the value on its way into the record
+                ok = ok and not ({n for n in names if n} - {'encode', 'get', 'bytes'} - ({wrapper} if wrapper else set()))      # (bytes(b) of bytes is b)
+            ctx.check(ok, rule, 'AuthConfiguration.%s is the encoded %r value%s when present, else None' % (
+                field, key, ' loaded by %s' % wrapper if wrapper else ''), key=(rule, 'AuthConfiguration', field), site=site,
+                detail={'found': tq.text(e, 300)})
+        optional('psk', 'psk', None)
+        optional('pubkey', 'pubkey', 'RsaPublicKey')
+        optional('privkey', 'privkey', 'RsaPrivateKey')
+        e = kw.get('id', NONE)
+        rd = conf_reads(e, d_auth)
+        ctx.check(tq.is_call(e, CLS + '._get_payload_id') and len(rd) == 1 and rd[0][0] == 'id'
+                  and rd[0][1] is not None and rd[0][1] is not MANDATORY and rd[0][1][0] == 'const' and isinstance(rd[0][1][2], str), rule,
+                  'AuthConfiguration.id is the typed `id` value (a fixed default when absent)',
+                  key=(rule, 'AuthConfiguration', 'id'), site=site)
+    return lauth, LA
+
+
 def run(ctx):
     prog, res = ctx.prog, ctx.res
     init = ctx.func(CLS + '.__init__')
@@ -535,38 +576,7 @@ def run(ctx):
                   site=site)
         check_proposal(ctx, lips, d_ips, 'IPsec proposal', kw.get('proposal'), None, IPSEC_ALGS, True, site)
 
-    # --- auth level
-    LA = ctx.sval(lauth)
-    d_auth = ('param', dict_param(lauth, 0))
-    calls = LA.calls_to(callee='namedtuple.AuthConfiguration')
-    ctx.floor('B2 AuthConfiguration(...) construction', len(calls), 1)
-    for c in calls:
-        kw = c.args
-        site = ctx.site(lauth, c.node)
-
-        def optional(field, key, wrapper):
-            e = kw.get(field, NONE)
-            present = LA.mk_cmp('in', const(key), d_auth)
-            a, b = tq.restrict(e, lambda t: True if strip_ids(t) == strip_ids(present) else None), \
-                tq.restrict(e, lambda t: False if strip_ids(t) == strip_ids(present) else None)
-            ok = a != b and b == NONE and tuple(k for k, _ in conf_reads(a, d_auth)) == (key,)
-            if ok:
-                names = callee_names(a)
-                ok = 'encode' in names and (wrapper is None or wrapper in names)
-                others = {'RsaPublicKey', 'RsaPrivateKey'} - {wrapper}
-                ok = ok and not (others & names)
-            ctx.check(ok, 'B2', 'AuthConfiguration.%s is the encoded %r value%s when present, else None' % (
-                field, key, ' loaded by %s' % wrapper if wrapper else ''), key=('B2', 'AuthConfiguration', field), site=site,
-                detail={'found': tq.text(e, 300)})
-        optional('psk', 'psk', None)
-        optional('pubkey', 'pubkey', 'RsaPublicKey')
-        optional('privkey', 'privkey', 'RsaPrivateKey')
-        e = kw.get('id', NONE)
-        rd = conf_reads(e, d_auth)
-        ctx.check(tq.is_call(e, CLS + '._get_payload_id') and len(rd) == 1 and rd[0][0] == 'id'
-                  and rd[0][1] is not None and rd[0][1] is not MANDATORY and rd[0][1][0] == 'const' and isinstance(rd[0][1][2], str), 'B2',
-                  'AuthConfiguration.id is the typed `id` value (a fixed default when absent)',
-                  key=('B2', 'AuthConfiguration', 'id'), site=site)
+    lauth, LA = auth_level(ctx, 'B2')
     # what each loader hands back is the record it built from the mapping it was given in this very call - not one kept from an earlier
     # call (a cache of records is keyed by *something*, and whatever the key leaves out is silently taken from the first entry loaded)
     for fi_, S_, cname in ((lauth, LA, 'AuthConfiguration'), (lips, ctx.sval(lips), 'IpsecConfiguration'), (like, LK, 'IkeConfiguration')):
